@@ -340,7 +340,16 @@ func (x *Exec) step(st *State, fr *Frame, ins ssa.Instruction) {
 	case *ssa.UnOp:
 		x.doUnOp(st, fr, v)
 	case *ssa.BinOp:
-		st.vals[v] = Val{T: st.name(v.Name(), x.binop(st, fr, v.Op, v.X, v.Y, v.Type(), v.Pos())), typ: v.Type()}
+		r := x.binop(st, fr, v.Op, v.X, v.Y, v.Type(), v.Pos())
+		if r.Sort == SInt && strings.HasPrefix(r.S, "(") {
+			// name arithmetic results: index terms then have the shape (+ off c) that quantifier triggers match
+			c := fresh(v.Name(), SInt)
+			st.define(c, r)
+			r = c
+		} else {
+			r = st.name(v.Name(), r)
+		}
+		st.vals[v] = Val{T: r, typ: v.Type()}
 	case *ssa.FieldAddr:
 		base := x.ptrAddr(st, fr, v.X, v.Pos())
 		stt := deref(v.X.Type())
